@@ -6,11 +6,11 @@ ROOT = os.path.dirname(os.path.dirname(os.path.abspath(__file__)))
 # id -> (level category, technique, level text, level note, design ref)
 CHECKS = {
  "C01": ("exploration", "model-based stateful PBT (proptest histories + exhaustive length<=3 block) against a reference model of GraphSpecs semantics",
-         "Every add_* call of every generated history is compared with a small reference model written from the property text: outcome kind, ordered node list, attributes, edge multiset, and an unchanged full fingerprint after a rejected call. All 96 specs x all histories of length <= 3 over a 6-op alphabet are enumerated; longer histories are sampled. Exploration, not proof.",
-         "trusts the reference model (harness/src/model.rs); T=String, A=i32 only", "DESIGN.md §4 C01"),
+         "Every add_* call of every generated history is compared with a small reference model written from the property text: outcome kind, ordered node list, node attributes, edge multiset including each stored edge's attributes, and an unchanged full fingerprint after a rejected call. All 96 specs x all histories of length <= 3 over a 6-op alphabet are enumerated; longer histories are sampled. Exploration, not proof.",
+         "trusts the reference model (harness/src/model.rs); names are Strings, node and edge attributes i32 (two edge objects in three carry a unique tag); also scripted histories on a 66 003-node graph, on universal hubs, on the complete graph of 1 100 nodes and single batches of 4 096..8 192 edges", "DESIGN.md §4 C01"),
  "C02": ("exploration", "model-based PBT: one coherence oracle cross-checks every read API (and, via the hook, the private indexes) against the model after each step",
          "After every (second) step of a generated history all read APIs are queried for every ordered pair / node / subset of a 7-name universe incl. an absent name and compared with the model's node list and edge multiset; the name-keyed and position-keyed stores are compared list by list through the snapshot hook.",
-         "trusts the model and the read-only snapshot hook; accepts either error kind where two apply", "DESIGN.md §4 C02"),
+         "trusts the model and the read-only snapshot hook; accepts either error kind where two apply; every returned edge is compared including its attributes; sampled reads on the 66 003-node graph and after scripted histories on large graphs", "DESIGN.md §4 C02"),
  "C03": ("exploration", "model-based PBT over uniformly (un)weighted histories; white-box invariant on the traversal lists plus differential check of weighted algorithms against oracles on get_all_edges()",
          "After every step the traversal lists (hook) must hold exactly the stored neighbours with the bit-exact minimum stored weight; weighted Dijkstra/betweenness/closeness on the final graph must equal oracles computed from get_all_edges() alone.",
          "trusts the snapshot hook and the oracle library; histories are uniformly weighted or unweighted as the property states", "DESIGN.md §4 C03"),
@@ -19,16 +19,16 @@ CHECKS = {
          "trusts harness/src/oracle.rs; completeness only asserted for strictly positive exactly-summable weights", "DESIGN.md §4 C04"),
  "C05": ("exploration", "PBT with a definition-level oracle (explicit shortest-path enumeration / sigma products) for betweenness, all rescaling combinations",
          "betweenness_centrality is compared (1e-9) with the sum over ordered pairs of the fraction of shortest paths through v, for weighted/unweighted x normalized/raw on graphs of all kinds incl. n <= 2 and n > 20.",
-         "trusts the oracle; paths are node sequences", "DESIGN.md §4 C05"),
+         "trusts the oracle; paths are node sequences; order-independent results are also compared between String names, a user-defined name type (lossy Display, colliding Hash) and i64 names; the pool (1, 3, 16, 24, 64 threads) is a generated input; every n in 21..=1200 (thorough ..=9000) on a closed-form family", "DESIGN.md §4 C05"),
  "C06": ("exploration", "PBT with a Floyd-Warshall oracle for closeness (incoming distances, WF scaling)",
          "closeness_centrality is compared (1e-12) with the statement's formula evaluated on an independent distance matrix for weighted/unweighted x wf_improved on graphs of all kinds.",
-         "trusts the oracle; positive weights", "DESIGN.md §4 C06"),
- "C07": ("exploration", "differential testing across rayon pool sizes 1..16 with perturbing load and concurrent readers; bit-exact comparison with the serial result",
-         "The five parallel functions are run inside pools of every size 1..=16, repeatedly and under contention, and must reproduce the serial (pool size 1) result bit for bit incl. path list order; concurrent read-only callers must see the same. Schedules are sampled, not enumerated.",
+         "trusts the oracle; positive weights; name-type independence as in C05; the pool is a generated input; two hierarchies of > 2^16 nodes with closed-form values", "DESIGN.md §4 C06"),
+ "C07": ("exploration", "differential testing across rayon pool sizes 1..16, 24, 32, 64 with perturbing load and concurrent readers, a long-lived-thread protocol for 8- and 16-bit wrap-around counters; bit-exact comparison with the serial result",
+         "The five parallel functions are run inside pools of every size 1..=16 and of 24, 32, 64 threads, repeatedly and under contention, and must reproduce the serial (pool size 1) result bit for bit incl. path list order; concurrent read-only callers must see the same. Schedules are sampled, not enumerated.",
          "rayon's scheduler is not controlled; an order-dependent reduction or serial/parallel divergence is caught reliably, a single-interleaving race may be missed", "DESIGN.md §4 C07"),
  "C08": ("exploration", "metamorphic PBT: relations R1-R7 between entry points and option combinations, no external oracle",
          "all_pairs = multi_source = single_source; target, cutoff, with_paths, first_only restrict but never change the unrestricted answer; symmetry and triangle inequality; get_all_shortest_paths_involving against an interior filter on the all-pairs answer.",
-         "the unrestricted all-paths answer is the reference (its own correctness is C04)", "DESIGN.md §4 C08"),
+         "the unrestricted all-paths answer is the reference (its own correctness is C04); with mixed-magnitude weights (absorbed tiny weights) only keys and distances are compared", "DESIGN.md §4 C08"),
  "C09": ("exploration", "model-based PBT over histories and constructed graphs: counting oracle on the edge multiset, handshake identities, entry-wise adjacency matrix",
          "Counts, degrees (self-loop = 2), weighted variants, per-node vs all-nodes maps, handshake identities on the API's own outputs, degree centrality, density and every entry of the sparse adjacency matrix are compared with counts over the model's edge list.",
          "trusts the model; weighted aggregates asserted only when every edge is weighted (dyadic)", "DESIGN.md §4 C09"),
@@ -52,13 +52,13 @@ CHECKS = {
          "trusts the model and the coherence oracle", "DESIGN.md §4 C15"),
  "C16": ("exploration", "PBT plus exhaustive small block plus seeded statistical cells with an 8-sigma bound; structural validity of every generated graph",
          "complete_graph for every n <= 60 and sampled larger n; fast_gnp_random_graph structure for n <= 300 and six probability classes down to 1e-307; mean edge count and pair support over hundreds of seeds per (n,p,d) cell; invalid p rejected; karate club against the Zachary list.",
-         "statistical bound has false-alarm probability < 1e-14 per cell", "DESIGN.md §4 C16"),
+         "statistical bounds (mean edge count per cell, per-node marginals in the sparse regime) have false-alarm probability < 1e-14 per cell / node", "DESIGN.md §4 C16"),
  "C17": ("exploration", "repeated-execution differential testing: in-process repeats, rayon pools of 1/3/16 threads and separate worker processes must agree on canonical results",
-         "Seeded Louvain and the seeded generator must return identical canonical results across 5 repeated calls, three pool sizes and another process; non-randomised algorithms must agree up to 1e-9.",
+         "Seeded Louvain and the seeded generator must return identical canonical results across 5 repeated calls, three pool sizes and another process, incl. graphs whose weights are spaced at a fraction of the library's tie tolerance and non-dyadic weights up to 1e6; non-randomised algorithms must agree up to 1e-9.",
          "worker processes are long-lived (one per harness thread), not one per case", "DESIGN.md §4 C17"),
  "C18": ("exploration", "PBT with validity predicates derived from the documented iteration (norm, sign, fixed-point residual bound) and metamorphic monotonicity in (max_iter, tolerance)",
          "Every Ok vector must be non-negative, unit-norm and move by at most the tolerance-derived bound under one more documented step x -> normalise(x + A^T x); Err must be PowerIterationFailedConvergence; Ok must persist under larger budgets.",
-         "the residual bound is sound but loose (factor about 2 sqrt(n) ||M||)", "DESIGN.md §4 C18"),
+         "the residual bound 2 ||M||_F n tol / max(1, ||Mx|| - ||M||_F n tol) is sound but loose; large graphs are also evaluated at the loosest tolerances where only entries, signs and the unit norm are checked", "DESIGN.md §4 C18"),
  "C19": ("fault_enumeration", "grammar-based generation of GraphML with a known expected graph, 24 injected fault kinds, and single-point corruptions enumerated exhaustively on 3 fixed documents and sampled elsewhere",
          "Totality (no panic / hang) for valid, faulty and corrupted documents; valid documents must yield the C01 model of their node and edge elements with the declared directedness; required-attribute faults must yield ReadError; every Ok graph must pass the C02/C03 oracles.",
          "the valid subset is the one described in harness/src/xmlgen.rs", "DESIGN.md §4 C19"),
